@@ -407,7 +407,14 @@ def _at_most_length(v, length, depth=0):
     if a[0] == "fn" and a[1] in ("min", "minimum") and any(isinstance(x, Form) and x == length for x in a[2]):
         return True
     if a[0] == "fn" and a[1] == "ifexp" and len(a[2]) == 3:
-        return _at_most_length(a[2][1], length, depth + 1) and _at_most_length(a[2][2], length, depth + 1)
+        c, x, y = a[2]
+        ca = c.single_atom() if isinstance(c, Form) else None
+        if ca and ca[0] == "fn" and ca[1] in ("gt", "ge") and len(ca[2]) == 2 and all(isinstance(z_, Form) for z_ in ca[2]):
+            big, small = ca[2]            # the test is big > small (lt / le are stored with swapped operands)
+            # `length if length < h else h` and `h if h < length else length`: the smaller of the two, written as a conditional
+            if isinstance(x, Form) and isinstance(y, Form) and ((x == small and y == big and x == length) or (x == small and y == big and y == length)):
+                return True
+        return _at_most_length(x, length, depth + 1) and _at_most_length(y, length, depth + 1)
     if a[0] == "phi":
         return all(_at_most_length(x, length, depth + 1) for x in a[2])
     return False
